@@ -67,6 +67,11 @@ def run(ctx):
     import blen
     blen.rule_B_LEN(ctx)
     blen.rule_L_ONCE(ctx)
+    # the enum parser's productions: which keyword is tested / skipped / handed to which sub-parser, which slot is filled (P-SKELETON), in terms of
+    # cursor primitives with exactly their reviewed meaning (P-PRIM)
+    import pskel as _pskel
+    _pskel.rule_P_PRIM(ctx)
+    _pskel.rule_P_SKELETON(ctx)
     ctx.undecided = ["the lower-bound half `a <= b` of the two `env[a..b]` sites (parse_items term region, segment_atom name region), the underflow "
                      "obligations `len - k`, and the closure slice of segment_atom rest on reviewed reasons (T-DISJOINT, P-GUARD); the upper bounds "
                      "of all lexical slice sites are machine-proved by B-LEN", "stack depth",
